@@ -1734,7 +1734,11 @@ int32_t tls13ParseSignatureAlgorithms(ssl_t *ssl,
             &algsLen);
     if (rc != 2)
     {
-        return rc;
+        /* The helper answers 0 when it cannot read: passing that on
+           reported a malformed extension as parsed. */
+        psTraceErrr("Malformed signature_algorithms extension\n");
+        ssl->err = SSL_ALERT_DECODE_ERROR;
+        return PS_PARSE_FAIL;
     }
 
     if (isCert)
@@ -1754,7 +1758,9 @@ int32_t tls13ParseSignatureAlgorithms(ssl_t *ssl,
                 &sigAlg);
         if (rc != 2)
         {
-            return rc;
+            psTraceErrr("Malformed signature_algorithms extension\n");
+            ssl->err = SSL_ALERT_DECODE_ERROR;
+            return PS_PARSE_FAIL;
         }
         parsedLen += 2;
         if (i >= TLS_MAX_SIGNATURE_ALGORITHMS)
